@@ -112,6 +112,24 @@ def parse_range(r, size):
     return s, min(e, size - 1)
 
 
+_INPUT_MEMBERS = {}
+
+
+def input_members(op):
+    """Names of the members of the S3 operation's input shape, from the installed botocore's
+    service model (read from disk; no network).  Empty set when the model cannot be read."""
+    if not _INPUT_MEMBERS:
+        try:
+            import botocore.loaders
+            model = botocore.loaders.Loader().load_service_model('s3', 'service-2')
+            for name, o in model['operations'].items():
+                shape = o.get('input', {}).get('shape')
+                _INPUT_MEMBERS[name] = set(model['shapes'].get(shape, {}).get('members', {})) if shape else set()
+        except Exception:      # noqa
+            _INPUT_MEMBERS['__failed__'] = set()
+    return _INPUT_MEMBERS.get(op, set())
+
+
 class FakeS3:
     """Thread-safe under the cooperative scheduler and under real threads."""
 
@@ -126,6 +144,8 @@ class FakeS3:
         # hooks
         self.fault = None          # callable(rec, when) -> exception or None
         self.body_script = None    # callable(op, kwargs) -> dict(sign_reads=[..], resends=int, send_reads=[..])
+        self.validate_params = True
+        self.rejected_params = []   # (op, [unknown parameter names]) refused before any request was made
         self.get_script = None     # callable(kwargs, attempt_no) -> dict(read_sizes, fail_after, exc)
         self.on_event = None       # callable(kind, rec) for schedulers (yield points)
         self.inflight = 0
@@ -134,6 +154,15 @@ class FakeS3:
 
     # -- plumbing ---------------------------------------------------------
     def _begin(self, op, kwargs):
+        # botocore validates the parameters of a call against the operation's input shape BEFORE
+        # anything is sent: an unknown parameter is a client-side ParamValidationError
+        if getattr(self, 'validate_params', True):
+            unknown = sorted(set(kwargs) - input_members(op)) if input_members(op) else []
+            if unknown:
+                from botocore.exceptions import ParamValidationError
+                self.rejected_params.append((op, unknown))
+                raise ParamValidationError(report=f'Unknown parameter in input: "{unknown[0]}", must be one of: '
+                                                  + ', '.join(sorted(input_members(op))))
         rec = {'op': op, 'kwargs': {k: v for k, v in kwargs.items() if k != 'Body'},
                'idx': None, 'done': False, 'outcome': None}
         with self._lock:
